@@ -50,7 +50,10 @@ META = {
         "`_recomp_num < recomp_max` whose other arm cannot return normally. R3: every increment of the schedule cursor "
         "executes together with setting the about-to-hit flag, the flag is reset on every pass before it may be set, the "
         "only decrements are unreachable when the flag is false and execute together with the rewind, increments and "
-        "decrements are by one, and the corrected dt is `schedule[cursor as read before the increment] - self.time`. "
+        "decrements are by one, the corrected dt is `schedule[cursor as read before the increment] - self.time`, and no "
+        "normally returning path advances the cursor without either that assignment or a re-evaluation of the correction "
+        "against the next entry (recursive call / re-read in a loop), except on the edge where the cursor is past the last "
+        "entry (fix 8b3fd1b10: exact landing on a scheduled time). "
         "R4: the recomputation counter is reset on every normal path of the iteration adaptation, increase_time and "
         "increase_time_index dominate solver.solve in the time loops and are the exact mirror of the rewind, the time "
         "loop is guarded by final_time_reached, the convergence hook reaches compute_time_step(iterations=...) on every "
@@ -66,7 +69,7 @@ META = {
                     "dt_min_max is (min, max) as documented and validated in __init__"],
     "technique": "statement-CFG dominance / post-dominance / reachability + three-valued branch evaluation",
 }
-MIN_INSTANCES = {"R1": 10, "R2": 8, "R3": 8, "R4": 10, "R5": 2}
+MIN_INSTANCES = {"R1": 10, "R2": 8, "R3": 9, "R4": 10, "R5": 2}
 
 
 # ------------------------------------------------------------------ generic helpers
@@ -507,6 +510,7 @@ def _rule_cursor(ctx: Ctx, mod, meths: dict, rec: dict) -> None:
             raise Undecided(f"{TSC}:{q}: unrecognised write to dt: {u(st)}")
     if not C:
         raise AnchorError(f"{TSC}:{q}: no corrected step `self.dt = <schedule time> - self.time`")
+    reads: list[int] = []
     for cn in C:
         st = g.stmt[cn]
         left, right = st.value.left, st.value.right
@@ -528,7 +532,15 @@ def _rule_cursor(ctx: Ctx, mod, meths: dict, rec: dict) -> None:
                       construct="corrected dt = schedule[cursor] - time", facts={"left": u(src), "right": u(right)})
             continue
         read_at = def_node if def_node is not None else cn
-        moved = [i for i in incs if g.reachable(i, read_at) or i == read_at]
+        reads.append(read_at)
+        if def_node is None:
+            # schedule[cursor] evaluated in the assignment itself: any earlier increment makes it the wrong entry
+            moved = [i for i in incs if g.reachable(i, cn)]
+        else:
+            # exactly one increment since the (last) read: never two increments without re-reading the entry
+            rd = frozenset({def_node})
+            moved = [i for i in incs for j in incs
+                     if g.reachable(i, j, avoiding=rd) and (j == cn or g.reachable(j, cn, avoiding=rd))]
         ok = u(right) == "self.time" and not moved and (def_node is None or g.dominates(def_node, cn))
         ctx.check("R3", ok, mod, q, st,
                   "the corrected step must be `schedule[cursor] - self.time` with the cursor read *before* it is advanced "
@@ -540,6 +552,84 @@ def _rule_cursor(ctx: Ctx, mod, meths: dict, rec: dict) -> None:
         ctx.check("R3", ok, mod, q, st,
                   "the step is shortened to a scheduled time only on paths that also advance the cursor and set the flag",
                   construct="corrected dt only together with cursor advance")
+
+
+    # advance => correct or re-check: no normally returning path may advance the cursor and return with dt neither
+    # assigned from the entry it advanced past nor re-evaluated against the next entry
+    R = set(_self_calls(g, M_SCHED))           # recursive re-evaluation
+    for i in incs:
+        R |= {r for r in reads if r not in C and g.reachable(i, r)}   # loop form: the entry is read again
+    stop = frozenset(set(C) | R)
+    for i in incs:
+        seen_, stack, leak_path = {i}, [i], None
+        while stack and leak_path is None:
+            n = stack.pop()
+            stn = g.stmt.get(n)
+            exhausted_edge = _no_next_entry_edge(stn.test) if isinstance(stn, (ast.If, ast.While)) else None
+            for m in g.g.successors(n):
+                cond = g.g.edges[n, m].get("cond")
+                if exhausted_edge is not None and cond == exhausted_edge:
+                    continue  # cursor past the last entry: nothing left to check against
+                if m == cfgmod.EXIT:
+                    leak_path = n
+                    break
+                if m in stop or m in seen_ or m == cfgmod.RAISE:
+                    continue
+                seen_.add(m)
+                stack.append(m)
+        ctx.check("R3", leak_path is None, mod, q, g.stmt[i],
+                  "a normally returning path advances the schedule cursor and returns with dt neither corrected to the entry "
+                  "it advanced past nor re-checked against the next entry: after a step that landed exactly on a scheduled "
+                  "time the next scheduled time can be stepped over (and the following correction is negative)",
+                  construct="cursor advance -> corrected dt | re-evaluation against next entry",
+                  facts={"leaves_through": u(g.stmt[leak_path])[:80] if leak_path in g.stmt else None,
+                         "re_evaluations": [u(g.stmt[r])[:60] for r in sorted(R)]})
+
+
+def _no_next_entry_edge(test: ast.expr) -> Optional[bool]:
+    """If test compares the cursor with len(self.schedule) so that one edge means `cursor >= len(schedule)` (no entry
+    left), return the label of that edge; None otherwise."""
+    if isinstance(test, ast.UnaryOp) and isinstance(test.op, ast.Not):
+        inner = _no_next_entry_edge(test.operand)
+        return None if inner is None else (not inner)
+    if not (isinstance(test, ast.Compare) and len(test.ops) == 1):
+        return None
+
+    def lin(e: ast.expr) -> Optional[dict]:
+        if _self_attr(e) == CURSOR:
+            return {"i": 1}
+        if isinstance(e, ast.Call) and call_name(e) == "len" and len(e.args) == 1 and _self_attr(e.args[0]) == "schedule":
+            return {"L": 1}
+        if isinstance(e, ast.Attribute) and e.attr == "size" and _self_attr(e.value) == "schedule":
+            return {"L": 1}
+        if isinstance(e, ast.Constant) and type(e.value) is int:
+            return {1: e.value}
+        if isinstance(e, ast.BinOp) and isinstance(e.op, (ast.Add, ast.Sub)):
+            a, b = lin(e.left), lin(e.right)
+            if a is None or b is None:
+                return None
+            out = dict(a)
+            for k, v in b.items():
+                out[k] = out.get(k, 0) + (v if isinstance(e.op, ast.Add) else -v)
+            return out
+        return None
+
+    l, r = lin(test.left), lin(test.comparators[0])
+    if l is None or r is None:
+        return None
+    d = {k: l.get(k, 0) - r.get(k, 0) for k in set(l) | set(r)}
+    op = type(test.ops[0])
+    if d.get("i", 0) == -1 and d.get("L", 0) == 1:
+        d = {k: -v for k, v in d.items()}
+        op = {ast.Gt: ast.Lt, ast.GtE: ast.LtE, ast.Lt: ast.Gt, ast.LtE: ast.GtE}.get(op, op)
+    if not (d.get("i", 0) == 1 and d.get("L", 0) == -1):
+        return None
+    c = d.get(1, 0)  # test is  i - L + c  <op>  0 ; "in range" is i - L <= -1
+    if (op is ast.Lt and c == 0) or (op is ast.LtE and c == 1):
+        return False   # test true <=> in range, so the False edge is the exhausted one
+    if (op is ast.GtE and c == 0) or (op is ast.Gt and c == 1):
+        return True
+    return None
 
 
 def _neg(v: Optional[bool]) -> Optional[bool]:
@@ -678,6 +768,11 @@ MUTANTS = [
        "            self.time -= self.dt  # (S1)\n            self.time_index -= 1  # (S2)\n            self.dt *= self.recomp_factor  # (S3)\n",
        "            self.dt *= self.recomp_factor  # (S3)\n            self.time -= self.dt  # (S1)\n            self.time_index -= 1  # (S2)\n",
        "R2", control=True),
+    _m("revert-fix-exact-landing", TSC,
+       "                if self._scheduled_idx < len(self.schedule):\n                    self._correction_based_on_schedule()\n                return\n",
+       "                return\n", "R3", control=True),
+    _m("recheck-skips-the-final-entry", TSC, "                if self._scheduled_idx < len(self.schedule):\n                    self._correction",
+       "                if self._scheduled_idx < len(self.schedule) - 1:\n                    self._correction", "R3"),
     _m("unguarded-cursor-decrement", TSC,
        "            if self._is_about_to_hit_schedule:  # (S5)\n                self._scheduled_idx -= 1\n",
        "            self._scheduled_idx -= 1  # (S5)\n", "R3"),
@@ -722,6 +817,9 @@ MUTANTS = [
     _m("convergence-hook-skips-controller", SOLSTRAT,
        "            self.time_manager.compute_time_step(\n                iterations=self.nonlinear_solver_statistics.num_iteration\n            )\n",
        "            pass\n", "R4"),
+    _m("seed-controller-skipped-for-linear-problems", SOLSTRAT,
+       "        if not self.time_manager.is_constant:\n            self.time_manager.compute_time_step(\n                iterations=",
+       "        if self._is_nonlinear_problem() and not self.time_manager.is_constant:\n            self.time_manager.compute_time_step(\n                iterations=", "R4"),
     _m("failure-hook-does-not-recompute", SOLSTRAT, "            self.time_manager.compute_time_step(recompute_solution=True)\n",
        "            self.time_manager.compute_time_step(iterations=self.nonlinear_solver_statistics.num_iteration)\n", "R4"),
     _m("min-clamp-uses-max-bound", TSC,
